@@ -84,7 +84,8 @@ def r2_pipeline(ctx):
     _, p_node, p_env = pa
     COPY = "self.value.copy()"
     ps = [q for q in paths(fn) if q.status != "raise"]
-    casts, numeric, copies, final = set(), [], [], []
+    casts, numeric, copies, final, none_units = set(), [], [], [], []
+    from ..flowexpr import reduce_ifexp
     for q in ps:
         stores = [e for e in q.events if e.kind == "store"]
         for e in stores:
@@ -116,6 +117,12 @@ def r2_pipeline(ctx):
             final.append(False)
         elif none:
             final.append(any(e.extra == "self.value" and norm(e.resolved) == COPY for e in stores))
+            # the unit a none value keeps: the definition's, for numbers
+            us = [e for e in stores if e.extra == f"{COPY}.unit"]
+            if us and isnum is not False:
+                num_atoms = {f"isinstance({COPY}, NumberType)": True, f"isinstance({COPY}, (IntegerType, FloatType))": True,
+                             f"isinstance({COPY}, (FloatType, IntegerType))": True}
+                none_units.append(norm(reduce_ifexp(us[-1].resolved, lambda e_: num_atoms.get(norm(e_)))))
         else:
             final.append(any(e.kind == "expr" and norm(e.resolved) == f"self.set_value({COPY}.value)" for e in q.events))
     want_cast = f"self.cast_value({p_node}.value_raw)"
@@ -133,6 +140,14 @@ def r2_pipeline(ctx):
                   detail=sorted({str(n) for n in seqs}), expected=want)
     ctx.form(bool(copies) and all(copies), NB, "BaseNode.modify_value", "works on a copy of the definition's typed value (type, width, sign kept)")
     ctx.form(bool(final) and all(final), NB, "BaseNode.modify_value", "the converted value is stored through the node's own setter; none is stored as none")
+    what = "a number modified to none keeps the unit of its definition"
+    ctx.form(bool(none_units), NB, "BaseNode.modify_value", "the unit stored with a none value is found")
+    if none_units:
+        wrong = sorted({u_ for u_ in none_units if u_ in (f"{p_node}.units_raw", "None")})
+        if wrong:
+            ctx.violated(NB, "BaseNode.modify_value", what, detail=wrong, expected="self.units_raw")
+        else:
+            ctx.form(all(u_ == "self.units_raw" for u_ in none_units), NB, "BaseNode.modify_value", what, detail=sorted(set(none_units)))
     # conversion in NumberType.convert: decision table over (unit given, own unit present, units equal, environment given)
     from ..flowexpr import consistent, reduce_ifexp
     fn = ctx.fn(TN, "NumberType.convert")
